@@ -66,9 +66,12 @@ def targets():
     g = lambda v: v.vec(*G)
     a = lambda v: v.vec(*AC)
     m = lambda v: v.vec(*M)
-    mah = lambda A, v: F(A).Mahony(b0=v.vec(*BB))
-    mo = lambda f, r: [r, f.b]                       # Mahony: output quaternion and carried bias
-    rol = lambda A: F(A).ROLEQ(magnetic_ref=np.array(MR), weights=np.array([1.0, 1.0]))
+    mad = lambda A: F(A).Madgwick(gain=0.4)          # a configured (non-default) gain
+    go = lambda f, r: [r, f.gain, f.gain_imu, f.gain_marg]   # Madgwick: output quaternion and the gains after the call
+    mah = lambda A, v: F(A).Mahony(b0=v.vec(*BB), k_P=3.0, k_I=0.05)
+    mo = lambda f, r: [r, f.b, f.k_P, f.k_I]         # Mahony: output quaternion, carried bias, and the gains after the call
+    rol = lambda A, w=(1.0, 1.0): F(A).ROLEQ(magnetic_ref=np.array(MR), weights=np.array(w))
+    ro = lambda f, r: [r, f.a]                       # ROLEQ: output quaternion and the weights after the call
     ekf = lambda A: F(A).EKF(magnetic_ref=np.array(MR))
     eo = lambda f, r: [r, f.P]                       # EKF / UKF: output quaternion and carried covariance
 
@@ -83,12 +86,12 @@ def targets():
 
     return [
         # Madgwick
-        mk('mad_imu_a0', Q + G + DT, lambda A, v: F(A).Madgwick().updateIMU(q(v), g(v), _z(), dt=v.dt)),
-        mk('mad_marg_a0', Q + G + M + DT, lambda A, v: F(A).Madgwick().updateMARG(q(v), g(v), _z(), m(v), dt=v.dt)),
-        mk('mad_marg_am0', Q + G + DT, lambda A, v: F(A).Madgwick().updateMARG(q(v), g(v), _z(), _z(), dt=v.dt)),
+        mk('mad_imu_a0', Q + G + DT, lambda A, v: (lambda f: go(f, f.updateIMU(q(v), g(v), _z(), dt=v.dt)))(mad(A))),
+        mk('mad_marg_a0', Q + G + M + DT, lambda A, v: (lambda f: go(f, f.updateMARG(q(v), g(v), _z(), m(v), dt=v.dt)))(mad(A))),
+        mk('mad_marg_am0', Q + G + DT, lambda A, v: (lambda f: go(f, f.updateMARG(q(v), g(v), _z(), _z(), dt=v.dt)))(mad(A))),
         mk('mad_marg_m0', Q + G + AC + DT, lambda A, v: (lambda f: [f.updateMARG(q(v), g(v), a(v), _z(), dt=v.dt),
-                                                                    f.updateIMU(A.Quaternion(q(v)), g(v), a(v))])(F(A).Madgwick()),
-           'mag dropout, acc valid: [updateMARG(q,gyr,acc,0,dt), updateIMU(Quaternion(q),gyr,acc)] (8 numbers)'),
+                                                                    f.updateIMU(A.Quaternion(q(v)), g(v), a(v)), f.gain])(mad(A)),
+           'mag dropout, acc valid: [updateMARG(q,gyr,acc,0,dt), updateIMU(Quaternion(q),gyr,acc), gain afterwards] (9 numbers)'),
         # Mahony (with the carried gyro bias)
         mk('mah_imu_a0', Q + G + BB + DT, lambda A, v: (lambda f: mo(f, f.updateIMU(q(v), g(v), _z(), dt=v.dt)))(mah(A, v))),
         mk('mah_marg_a0', Q + G + M + BB + DT, lambda A, v: (lambda f: mo(f, f.updateMARG(q(v), g(v), _z(), m(v), dt=v.dt)))(mah(A, v))),
@@ -107,9 +110,13 @@ def targets():
         mk('fou_a0', Q + G + M + DT, lambda A, v: F(A).Fourati().update(q(v), g(v), _z(), m(v), dt=v.dt)),
         mk('fou_m0', Q + G + AC + DT, lambda A, v: F(A).Fourati().update(q(v), g(v), a(v), _z(), dt=v.dt)),
         # ROLEQ
-        mk('rol_a0', Q + G + M + DT, lambda A, v: rol(A).update(q(v), g(v), _z(), m(v), dt=v.dt)),
-        mk('rol_m0', Q + G + AC + DT, lambda A, v: rol(A).update(q(v), g(v), a(v), _z(), dt=v.dt)),
-        mk('rol_am0', Q + G + DT, lambda A, v: rol(A).update(q(v), g(v), _z(), _z(), dt=v.dt)),
+        mk('rol_a0', Q + G + M + DT, lambda A, v: (lambda f: ro(f, f.update(q(v), g(v), _z(), m(v), dt=v.dt)))(rol(A))),
+        mk('rol_m0', Q + G + AC + DT, lambda A, v: (lambda f: ro(f, f.update(q(v), g(v), a(v), _z(), dt=v.dt)))(rol(A))),
+        mk('rol_am0', Q + G + DT, lambda A, v: (lambda f: ro(f, f.update(q(v), g(v), _z(), _z(), dt=v.dt)))(rol(A))),
+        mk('rol_m0_w10', Q + G + AC + DT, lambda A, v: (lambda f: ro(f, f.update(q(v), g(v), a(v), _z(), dt=v.dt)))(rol(A, (1.0, 0.0))),
+           'weights [1, 0]: a null sample of the zero-weighted magnetometer'),
+        mk('rol_a0_w01', Q + G + M + DT, lambda A, v: (lambda f: ro(f, f.update(q(v), g(v), _z(), m(v), dt=v.dt)))(rol(A, (0.0, 1.0))),
+           'weights [0, 1]: a null sample of the zero-weighted accelerometer'),
         # EKF (the guard paths are decided before LAPACK is reached)
         mk('ekf_a0', Q + G + DT, lambda A, v: (lambda f: eo(f, f.update(q(v), g(v), _z(), dt=v.dt)))(ekf(A))),
         mk('ekf_a0_mag', Q + G + M + DT, lambda A, v: (lambda f: eo(f, f.update(q(v), g(v), _z(), m(v), dt=v.dt)))(ekf(A))),
@@ -152,9 +159,12 @@ def _impl_table():
     g = lambda c: _v(c, G)
     a = lambda c: _v(c, AC)
     m = lambda c: _v(c, M)
-    mah = lambda c: F.Mahony(b0=_v(c, BB))
-    mo = lambda f, r: [r, f.b]
-    rol = lambda: F.ROLEQ(magnetic_ref=np.array(MR), weights=np.array([1.0, 1.0]))
+    mad = lambda: F.Madgwick(gain=0.4)
+    go = lambda f, r: [r, f.gain, f.gain_imu, f.gain_marg]
+    mah = lambda c: F.Mahony(b0=_v(c, BB), k_P=3.0, k_I=0.05)
+    mo = lambda f, r: [r, f.b, f.k_P, f.k_I]
+    rol = lambda w=(1.0, 1.0): F.ROLEQ(magnetic_ref=np.array(MR), weights=np.array(w))
+    ro = lambda f, r: [r, f.a]
     ekf = lambda: F.EKF(magnetic_ref=np.array(MR))
     eo = lambda f, r: [r, f.P]
     import ahrs
@@ -168,11 +178,11 @@ def _impl_table():
         o = F.FKF(gyr=np.array([_v(c, H), _v(c, G)]), acc=np.array([_v(c, AC), acc1]), mag=np.array([_v(c, N0), mag1]))
         return [o.Q[1], o.Pk]
     return {
-        'mad_imu_a0': lambda c: F.Madgwick().updateIMU(q(c), g(c), z(), dt=c['dt']),
-        'mad_marg_a0': lambda c: F.Madgwick().updateMARG(q(c), g(c), z(), m(c), dt=c['dt']),
-        'mad_marg_am0': lambda c: F.Madgwick().updateMARG(q(c), g(c), z(), z(), dt=c['dt']),
+        'mad_imu_a0': lambda c: (lambda f: go(f, f.updateIMU(q(c), g(c), z(), dt=c['dt'])))(mad()),
+        'mad_marg_a0': lambda c: (lambda f: go(f, f.updateMARG(q(c), g(c), z(), m(c), dt=c['dt'])))(mad()),
+        'mad_marg_am0': lambda c: (lambda f: go(f, f.updateMARG(q(c), g(c), z(), z(), dt=c['dt'])))(mad()),
         'mad_marg_m0': lambda c: (lambda f: [f.updateMARG(q(c), g(c), a(c), z(), dt=c['dt']),
-                                             f.updateIMU(ahrs.Quaternion(q(c)), g(c), a(c))])(F.Madgwick()),
+                                             f.updateIMU(ahrs.Quaternion(q(c)), g(c), a(c)), f.gain])(mad()),
         'mah_imu_a0': lambda c: (lambda f: mo(f, f.updateIMU(q(c), g(c), z(), dt=c['dt'])))(mah(c)),
         'mah_marg_a0': lambda c: (lambda f: mo(f, f.updateMARG(q(c), g(c), z(), m(c), dt=c['dt'])))(mah(c)),
         'mah_marg_am0': lambda c: (lambda f: mo(f, f.updateMARG(q(c), g(c), z(), z(), dt=c['dt'])))(mah(c)),
@@ -185,9 +195,11 @@ def _impl_table():
                                               f.updateIMU(q(c), g(c), a(c), dt=c['dt'])])(F.AQUA()),
         'fou_a0': lambda c: F.Fourati().update(q(c), g(c), z(), m(c), dt=c['dt']),
         'fou_m0': lambda c: F.Fourati().update(q(c), g(c), a(c), z(), dt=c['dt']),
-        'rol_a0': lambda c: rol().update(q(c), g(c), z(), m(c), dt=c['dt']),
-        'rol_m0': lambda c: rol().update(q(c), g(c), a(c), z(), dt=c['dt']),
-        'rol_am0': lambda c: rol().update(q(c), g(c), z(), z(), dt=c['dt']),
+        'rol_a0': lambda c: (lambda f: ro(f, f.update(q(c), g(c), z(), m(c), dt=c['dt'])))(rol()),
+        'rol_m0': lambda c: (lambda f: ro(f, f.update(q(c), g(c), a(c), z(), dt=c['dt'])))(rol()),
+        'rol_am0': lambda c: (lambda f: ro(f, f.update(q(c), g(c), z(), z(), dt=c['dt'])))(rol()),
+        'rol_m0_w10': lambda c: (lambda f: ro(f, f.update(q(c), g(c), a(c), z(), dt=c['dt'])))(rol((1.0, 0.0))),
+        'rol_a0_w01': lambda c: (lambda f: ro(f, f.update(q(c), g(c), z(), m(c), dt=c['dt'])))(rol((0.0, 1.0))),
         'ekf_a0': lambda c: (lambda f: eo(f, f.update(q(c), g(c), z(), dt=c['dt'])))(ekf()),
         'ekf_a0_mag': lambda c: (lambda f: eo(f, f.update(q(c), g(c), z(), m(c), dt=c['dt'])))(ekf()),
         'ekf_m0': lambda c: ekf().update(q(c), g(c), a(c), z(), dt=c['dt']),
@@ -233,6 +245,7 @@ def correspondence(ctx):
     # twin targets: on every Val leaf of the regenerated tree the two halves are the SAME DAG nodes
     # (updateMARG with a null magnetometer returns what updateIMU returns); structural, checked on every run
     from pysym.sym import Leaf, Node
+    from fractions import Fraction
     for nm, half, gyr_guard in (('mad_marg_m0', 4, True), ('aqua_marg_m0', 4, False)):   # Mahony's twin: numeric only (o_step)
         tt = ctx.targets.get('C13_' + nm)
         if tt is None or tt.error:
@@ -249,10 +262,12 @@ def correspondence(ctx):
             if t.kind == 'raise':
                 if t.payload != 'ValueError':
                     bad.append(('raise', t.payload))
-            elif not gz:
+            else:
                 f = t.flat
-                if len(f) != 2 * half or any(f[i] is not f[i + half] for i in range(half)):
-                    bad.append(('halves differ', len(f)))
+                if not gz and (len(f) < 2 * half or any(f[i] is not f[i + half] for i in range(half))):
+                    bad.append(('halves differ', len(f)))      # (in the zero-gyro branch q is normalised once vs twice)
+                if nm == 'mad_marg_m0' and not (len(f) == 9 and f[8].is_const and f[8].value == Fraction(2, 5)):
+                    bad.append(('gain changed by the null-magnetometer step', repr(f[8]) if len(f) == 9 else len(f)))
         rec(tt.tree, False)
         if bad:
             ctx.disagree('twin_' + nm, {'target': nm}, 'MARG(mag=0) == IMU on every leaf', bad[:3],
@@ -263,92 +278,176 @@ def correspondence(ctx):
 
 
 # ------------------------------------------------------------------------------------------
-# search oracle: dropouts inside otherwise valid histories
+# search oracle: dropouts inside otherwise valid histories, for default AND non-default configurations
 # ------------------------------------------------------------------------------------------
-def _history(seed, N, amp):
-    """a smooth rotation history with consistent gyr / acc / mag (NED, gravity +z as the filters expect for acc)"""
+DT0 = 0.01
+MREF = {'NED': np.array([22.0, 1.5, 41.0]), 'ENU': np.array([1.5, 22.0, -41.0])}
+GREF = {'NED': np.array([0.0, 0.0, 9.81]), 'ENU': np.array([0.0, 0.0, -9.81])}
+
+
+def _history(seed, N, amp, bias=(0.0, 0.0, 0.0), frame='NED'):
+    """a smooth rotation history with a true heading far from zero (about 1.2-2 rad), consistent gyr / acc / mag in the
+    given frame, and a constant gyroscope bias"""
     rng = np.random.default_rng(seed)
-    dt = 0.01
-    t = np.arange(N) * dt
+    t = np.arange(N) * DT0
     ax = cm.unit(rng.standard_normal(3))
     ang = amp * np.sin(2 * np.pi * 0.4 * t) + 0.3 * amp * np.sin(2 * np.pi * 1.1 * t + 1.0)      # rates up to ~5 rad/s at amp 1.5
-    q0 = cm.axang_q(rng.standard_normal(3), 0.4)
+    q0 = cm.qmul(cm.axang_q([0, 0, 1], 1.2 + 0.4 * seed), cm.axang_q(rng.standard_normal(3), 0.4))
     qs = np.array([cm.qmul(q0, cm.axang_q(ax, a)) for a in ang])
-    gref, mref = np.array([0.0, 0.0, 9.81]), np.array([22.0, 1.5, 41.0])
-    acc = np.array([cm.Rspec(q).T @ gref for q in qs])
-    mag = np.array([cm.Rspec(q).T @ mref for q in qs])
+    acc = np.array([cm.Rspec(q).T @ GREF[frame] for q in qs])
+    mag = np.array([cm.Rspec(q).T @ MREF[frame] for q in qs])
     gyr = np.zeros((N, 3))
     for i in range(1, N):
         d = cm.qmul(cm.qconj(qs[i - 1]), qs[i])
-        gyr[i] = 2 * d[1:] / dt / max(d[0], 1e-9)
+        gyr[i] = 2 * d[1:] / DT0 / max(d[0], 1e-9)
+    gyr[1:] += np.asarray(bias, float)
     return gyr, acc, mag, qs
 
 
-FILTERS = {
-    # name: (constructor(gyr, acc, mag) -> Q array (N x 4), uses mag?, recovery samples, recovery tolerance [rad])
-    'Madgwick/IMU': (lambda g, a, m: _F().Madgwick(gyr=g, acc=a).Q, False, 100, 0.15),
-    'Madgwick/MARG': (lambda g, a, m: _F().Madgwick(gyr=g, acc=a, mag=m).Q, True, 100, 0.15),
-    'Mahony/IMU': (lambda g, a, m: _F().Mahony(gyr=g, acc=a).Q, False, 100, 0.15),
-    'Mahony/MARG': (lambda g, a, m: _F().Mahony(gyr=g, acc=a, mag=m).Q, True, 100, 0.15),
-    'AQUA/IMU': (lambda g, a, m: _F().AQUA(gyr=g, acc=a).Q, False, 100, 0.15),
-    'AQUA/MARG': (lambda g, a, m: _F().AQUA(gyr=g, acc=a, mag=m).Q, True, 100, 0.15),
-    'Fourati/MARG': (lambda g, a, m: _F().Fourati(gyr=g, acc=a, mag=m).Q, True, 100, 0.15),
-    # q0 given: ROLEQ's own initialisation (OLEQ.estimate) draws from the global RNG, so two runs would differ at row 0
-    'ROLEQ/MARG': (lambda g, a, m: _F().ROLEQ(gyr=g, acc=a, mag=m, magnetic_ref=np.array(MR), q0=_q0(a, m)).Q, True, 100, 0.15),
-    'EKF/IMU': (lambda g, a, m: _F().EKF(gyr=g, acc=a).Q, False, 100, 0.15),
-    'EKF/MARG': (lambda g, a, m: _F().EKF(gyr=g, acc=a, mag=m, magnetic_ref=np.array(MR)).Q, True, 100, 0.15),
-    'UKF/IMU': (lambda g, a, m: _F().UKF(gyr=g, acc=a).Q, False, 100, 0.15),
-    'FKF/MARG': (lambda g, a, m: _F().FKF(gyr=g, acc=a, mag=m).Q, True, 100, 0.15),
-    'Complementary/IMU': (lambda g, a, m: _F().Complementary(gyr=g, acc=a).Q, False, 100, 0.15),
-    'Complementary/MARG': (lambda g, a, m: _F().Complementary(gyr=g, acc=a, mag=m).Q, True, 100, 0.15),
-}
-
-
-def _q0(a, m):
+def _q0(a, m, frame='NED'):
     from ahrs.common.orientation import ecompass
-    q = np.asarray(ecompass(np.asarray(a, float)[0], np.asarray(m, float)[0], frame='NED', representation='quaternion'), float)
+    q = np.asarray(ecompass(np.asarray(a, float)[0], np.asarray(m, float)[0], frame=frame, representation='quaternion'), float)
     return q / np.linalg.norm(q)
+
+
+# variant -> (class name, uses mag?, constructor kwargs, kind of the skipped correction on a null-acc row, frame)
+#   kind: 'dr'  = q (x) (0,w) dead reckoning;  'drL' = AQUA's (0,-w) (x) q;  'hold' = prior returned;  'refuse' = ValueError;
+#         'ang' = Complementary angles integrate the gyroscopes
+VARIANTS = {
+    'Madgwick/IMU': ('Madgwick', False, {}, 'dr', 'NED'),
+    'Madgwick/IMU/gain=0.4': ('Madgwick', False, {'gain': 0.4}, 'dr', 'NED'),
+    'Madgwick/MARG': ('Madgwick', True, {}, 'dr', 'NED'),
+    'Madgwick/MARG/gain=0.4': ('Madgwick', True, {'gain': 0.4}, 'dr', 'NED'),
+    'Madgwick/MARG/gain_marg=0.2': ('Madgwick', True, {'gain_marg': 0.2, 'gain_imu': 0.01}, 'dr', 'NED'),
+    'Mahony/IMU': ('Mahony', False, {}, 'dr', 'NED'),
+    'Mahony/IMU/kP=3,kI=0.05': ('Mahony', False, {'k_P': 3.0, 'k_I': 0.05}, 'dr', 'NED'),
+    'Mahony/MARG': ('Mahony', True, {}, 'dr', 'NED'),
+    'Mahony/MARG/kP=0.5,kI=1': ('Mahony', True, {'k_P': 0.5, 'k_I': 1.0, 'b0': [0.01, 0.0, -0.01]}, 'dr', 'NED'),
+    'AQUA/IMU': ('AQUA', False, {}, 'drL', 'NED'),
+    'AQUA/IMU/adaptive': ('AQUA', False, {'adaptive': True, 'alpha': 0.05}, 'drL', 'NED'),
+    'AQUA/MARG': ('AQUA', True, {}, 'drL', 'NED'),
+    'AQUA/MARG/adaptive': ('AQUA', True, {'adaptive': True, 'beta': 0.05, 'threshold': 0.95}, 'drL', 'NED'),
+    'Fourati/MARG': ('Fourati', True, {}, 'refuse', 'NED'),
+    'Fourati/MARG/gain=0.5': ('Fourati', True, {'gain': 0.5}, 'refuse', 'NED'),
+    'ROLEQ/MARG': ('ROLEQ', True, {'magnetic_ref': MREF['NED']}, 'dr', 'NED'),
+    'ROLEQ/MARG/w=[1,0]': ('ROLEQ', True, {'magnetic_ref': MREF['NED'], 'weights': [1.0, 0.0]}, 'dr', 'NED'),
+    'ROLEQ/MARG/w=[0,1]': ('ROLEQ', True, {'magnetic_ref': MREF['NED'], 'weights': [0.0, 1.0]}, 'dr', 'NED'),
+    'ROLEQ/MARG/w=[.7,.3]': ('ROLEQ', True, {'magnetic_ref': MREF['NED'], 'weights': [0.7, 0.3]}, 'dr', 'NED'),
+    'EKF/IMU': ('EKF', False, {}, 'hold', 'NED'),
+    'EKF/IMU/noises': ('EKF', False, {'noises': [0.1**2, 0.3**2, 0.5**2]}, 'hold', 'NED'),
+    'EKF/MARG': ('EKF', True, {'magnetic_ref': MREF['NED']}, 'hold', 'NED'),
+    'EKF/MARG/ENU': ('EKF', True, {'magnetic_ref': MREF['ENU'], 'frame': 'ENU', 'noises': [0.2**2, 0.4**2, 0.6**2]}, 'hold', 'ENU'),
+    'UKF/IMU': ('UKF', False, {}, 'hold', 'NED'),
+    'UKF/IMU/alpha=0.1': ('UKF', False, {'alpha': 0.1, 'beta': 1.0}, 'hold', 'NED'),
+    'FKF/MARG': ('FKF', True, {}, 'dr', 'NED'),
+    'FKF/MARG/sigmas': ('FKF', True, {'sigma_g': 0.05, 'sigma_a': 0.02, 'sigma_m': 0.03, 'Pk': 0.1}, 'dr', 'NED'),
+    'Complementary/IMU': ('Complementary', False, {}, 'ang', 'NED'),
+    'Complementary/IMU/gain=0.5': ('Complementary', False, {'gain': 0.5}, 'ang', 'NED'),
+    'Complementary/MARG': ('Complementary', True, {}, 'ang', 'NED'),
+    'Complementary/MARG/gain=0.98': ('Complementary', True, {'gain': 0.98}, 'ang', 'NED'),
+    'Complementary/MARG/gain=0.5': ('Complementary', True, {'gain': 0.5}, 'ang', 'NED'),
+}
+# the declared carried state and the sensor data themselves; every other attribute is configuration
+CARRIED = {'Q', 'q', 'b', 'P', 'Pk', 'alpha', 'W', 'gyr', 'acc', 'mag', 'q0', 'w0',
+           'R'}     # EKF rebuilds R from `noises` at every corrected update (derived, not configuration)
+
+
+def _gsign(cls):
+    return -1.0 if cls == 'ROLEQ' else 1.0      # ROLEQ's NED gravity reference is (0,0,-1)
+
+
+def _build(variant, g, a, m, q_true0):
+    cls, uses_mag, kw, kind, frame = VARIANTS[variant]
+    kw = {k: (np.array(v, float) if isinstance(v, (list, np.ndarray)) else v) for k, v in kw.items()}
+    C = getattr(_F(), cls)
+    if cls == 'ROLEQ' or frame == 'ENU':
+        # ROLEQ's own initialisation draws from the global RNG (two runs would differ at row 0); EKF's ENU initialisation
+        # starts half a turn away: both get the true initial attitude
+        kw['q0'] = np.array(q_true0, float)
+    if uses_mag:
+        return C(gyr=g, acc=a, mag=m, **kw)
+    return C(gyr=g, acc=a, **kw)
+
+
+def _config(obj):
+    out = {}
+    for k, v in vars(obj).items():
+        if k in CARRIED or k.startswith('_'):
+            continue
+        if isinstance(v, (bool, int, float, str, np.floating, np.integer)) or v is None:
+            out[k] = v
+        elif isinstance(v, (list, tuple, np.ndarray)):
+            try:
+                out[k] = np.array(v, dtype=float).tolist()
+            except Exception:
+                out[k] = repr(v)
+    return out
+
+
+def _cfg_diff(c0, c1):
+    bad = []
+    for k in sorted(set(c0) | set(c1)):
+        a, b = c0.get(k, '<absent>'), c1.get(k, '<absent>')
+        same = (a == b) or (isinstance(a, float) and isinstance(b, float) and a != a and b != b)
+        if not same:
+            bad.append((k, a, b))
+    return bad
 
 
 def _qangle(p, q):
     return 2 * math.acos(min(1.0, abs(float(np.dot(p, q)))))
 
 
+def _qdist(p, q):
+    """distance of two unit quaternions as rotations (sign-insensitive), accurate near 0"""
+    p, q = np.asarray(p, float), np.asarray(q, float)
+    return 2 * min(np.linalg.norm(p - q), np.linalg.norm(p + q))
+
+
+def _dr(q, g, h, left=False):
+    w, x, y, z = q
+    g0, g1, g2 = g
+    if left:
+        v = np.array([w + h / 2 * (g0 * x + g1 * y + g2 * z), x + h / 2 * (-g0 * w + g2 * y - g1 * z),
+                      y + h / 2 * (-g1 * w - g2 * x + g0 * z), z + h / 2 * (-g2 * w + g1 * x - g0 * y)])
+    else:
+        v = np.array([w + h / 2 * (-x * g0 - y * g1 - z * g2), x + h / 2 * (w * g0 + y * g2 - z * g1),
+                      y + h / 2 * (w * g1 - x * g2 + z * g0), z + h / 2 * (w * g2 + x * g1 - y * g0)])
+    return v / np.linalg.norm(v)
+
+
 def _as(x, form):
-    """the same record handed over as float64 array, Python list, or float32 array"""
-    if form == 'list':
-        return x.tolist()
-    if form == 'f32':
-        return x.astype(np.float32)
-    return x.copy()
+    return x.tolist() if form == 'list' else x.copy()
 
 
 def o_dropout(inp):
-    """one filter, one history, one dropout pattern: no NaN/inf, unit norm at and after the dropout, or ValueError;
-    after the dropout ends the estimates return to the no-dropout run"""
+    """one filter configuration, one history, one dropout pattern, compared with the same filter on the clean history:
+    ValueError or — no NaN/inf, unit norm, the past untouched, the configuration untouched, DURING the outage exactly the
+    filter's own dead reckoning (the closed forms of the Coq theorems), right AFTER the outage a deviation that gyro drift
+    over the outage explains, later no worse"""
     from vlib.core import call_outcome
     name = inp['filter']
-    run, uses_mag, rec_n, rec_tol = FILTERS[name]
-    gyr, acc, mag, _ = _history(inp['seed'], inp['N'], inp['amp'])
+    cls, uses_mag, kw, kind, frame = VARIANTS[name]
+    gyr, acc, mag, qs = _history(inp['seed'], inp['N'], inp['amp'], inp.get('bias', (0, 0, 0)), frame)
+    acc = acc * _gsign(cls)
     form = inp.get('form', 'f64')
-    ref = call_outcome(run, _as(gyr, form), _as(acc, form), _as(mag, form))
+    ref = call_outcome(_build, name, _as(gyr, form), _as(acc, form), _as(mag, form), qs[0])
     if ref[0] == 'raise':
         return {'tag': f'{name}/clean-history-raises-{ref[1]}', 'observed': list(ref[1:])}
-    Qref = np.asarray(ref[1], float)
+    oref = ref[1]
+    Qref = np.asarray(oref.Q, float)
     g2, a2, m2 = gyr.copy(), acc.copy(), mag.copy()
-    last = 0
     for sensor, start, length in inp['drops']:
         {'acc': a2, 'mag': m2, 'gyr': g2}[sensor][start:start + length] = 0.0
-        last = max(last, start + length)
     sensors = '+'.join(sorted({d[0] for d in inp['drops']}))
-    out = call_outcome(run, _as(g2, form), _as(a2, form), _as(m2, form))
+    out = call_outcome(lambda: (lambda o: (o, np.asarray(o.Q)))(_build(name, _as(g2, form), _as(a2, form), _as(m2, form), qs[0])))
     if out[0] == 'raise':
         if out[1] == 'ValueError':
             return None                               # refusing the record is allowed by the property
-        if out[1] == 'LinAlgError':               # covariance lost positive definiteness: one tag per filter
+        if out[1] == 'LinAlgError':
             return {'tag': f'{name}/raises-LinAlgError', 'observed': list(out[1:]), 'expected': 'unit quaternions or ValueError'}
         return {'tag': f'{name}/{sensors}/raises-{out[1]}', 'observed': list(out[1:])}
-    Qd = np.asarray(out[1])
+    od, Qd = out[1]
     if Qd.shape != Qref.shape:
         return {'tag': f'{name}/{sensors}/shape', 'observed': list(Qd.shape), 'expected': list(Qref.shape)}
     if cm.bad(Qd):
@@ -357,22 +456,91 @@ def o_dropout(inp):
                 'expected': 'finite unit quaternions or ValueError'}
     Qd = np.asarray(Qd, float)
     nrm = np.linalg.norm(Qd, axis=1)
-    tol = 1e-9
-    if np.max(np.abs(nrm - 1)) > tol:
-        k = int(np.argmax(np.abs(nrm - 1)))
-        return {'tag': f'{name}/{sensors}/non-unit', 'observed': float(nrm[k]), 'expected': 1.0, 'note': f'row {k}'}
+    if np.max(np.abs(nrm - 1)) > 1e-9:
+        kk = int(np.argmax(np.abs(nrm - 1)))
+        return {'tag': f'{name}/{sensors}/non-unit', 'observed': float(nrm[kk]), 'expected': 1.0, 'note': f'row {kk}'}
     first = min(d[1] for d in inp['drops'])
     if first > 0 and cm.maxabs(Qd[:first], Qref[:first]) > 1e-12:
         return {'tag': f'{name}/{sensors}/changes-the-past', 'observed': 'rows before the dropout differ'}
-    # recovery: explored, with a generous envelope (0.15 rad: far below a lost attitude ~ 1 rad, far above the
-    # 0.05-0.07 rad residual the slow filters (FKF, UKF) still show 60 samples after a 10-sample dropout)
-    if last + rec_n < len(Qd) and 'gyr' not in sensors:
-        err = max(_qangle(Qd[i], Qref[i]) for i in range(last + rec_n, len(Qd)))
-        longest = max(d[2] for d in inp['drops'])
-        if longest > 10:     # long outage: the slow filters (UKF, FKF) need more than rec_n samples; demand clear recovery instead
-            rec_tol = max(rec_tol, 0.8 * _qangle(Qd[min(last, len(Qd) - 1)], Qref[min(last, len(Qd) - 1)]))
-        if err > rec_tol:
-            return {'tag': f'{name}/{sensors}/no-recovery', 'observed': err, 'expected': f'<= {rec_tol} rad {rec_n} samples after the dropout'}
+    # (b) configuration: everything but the declared carried state must equal the clean run's
+    diff = _cfg_diff(_config(oref), _config(od))
+    if diff:
+        return {'tag': f'{name}/dropout-changes-configuration', 'observed': {k: b for k, a, b in diff}, 'expected': {k: a for k, a, b in diff}}
+    # (a1) during the outage: exactly the filter's own dead reckoning of its previous output
+    N = len(Qd)
+    za = np.linalg.norm(a2, axis=1) == 0
+    zm = (np.linalg.norm(m2, axis=1) == 0) if uses_mag else np.zeros(N, bool)
+    zg = np.linalg.norm(g2, axis=1) == 0
+    Wd = np.asarray(od.W, float) if kind == 'ang' else None
+    for t in range(1, N):
+        skip = za[t] or (zm[t] and cls in ('ROLEQ', 'FKF'))
+        if not skip:
+            continue
+        if kind == 'ang':
+            ncomp = 3 if uses_mag else 2
+            exp = Wd[t - 1, :ncomp] + g2[t, :ncomp] * DT0
+            if cm.maxabs(Wd[t, :ncomp], exp) > 1e-12:
+                return {'tag': f'{name}/{sensors}/not-dead-reckoned', 'observed': Wd[t], 'expected': exp, 'note': f'angles at row {t}'}
+            continue
+        if kind == 'hold' or (zg[t] and cls in ('Madgwick', 'Mahony', 'AQUA')):
+            exp = Qd[t - 1]
+        else:
+            exp = _dr(Qd[t - 1], g2[t], DT0, left=(kind == 'drL'))
+        if _qdist(Qd[t], exp) > 1e-12:
+            return {'tag': f'{name}/{sensors}/not-dead-reckoned', 'observed': Qd[t], 'expected': exp, 'note': f'row {t}'}
+    # (a2) right after the outage (and from then on): the deviation from the clean run is what gyro drift over the outage
+    # explains — dead-reckoning filters drift by (bias + the correction rate they missed), holding filters by the motion
+    if 'gyr' not in sensors:
+        starts = sorted((d[1], d[1] + d[2]) for d in inp['drops'])
+        s0, last = starts[0][0], max(e for _, e in starts)
+        L = last - s0
+        bias = float(np.linalg.norm(inp.get('bias', (0, 0, 0))))
+        gmax = float(np.max(np.linalg.norm(gyr[s0:last], axis=1))) if last > s0 else 0.0
+        # what the clean run's own corrections over the outage amount to (large only while the filter is still converging)
+        missed = 0.0
+        for t in range(max(s0, 1), min(last, N)):
+            pr = Qref[t - 1] if kind == 'hold' else _dr(Qref[t - 1], gyr[t], DT0, left=(kind == 'drL'))
+            missed += _qangle(Qref[t], pr)
+        rate = (gmax if kind == 'hold' else bias) + 0.2
+        bound = 0.02 + L * DT0 * rate + 1.5 * missed
+        for i in range(last, N):
+            e = _qangle(Qd[i], Qref[i])
+            if e > bound:
+                where = 'after' if i < last + 10 else 'late'
+                return {'tag': f'{name}/{sensors}/deviation-{where}-dropout', 'observed': e,
+                        'expected': f'<= {bound:.3f} rad (outage {L} samples, drift rate {rate:.2f} rad/s, missed corrections {missed:.3f} rad)', 'note': f'row {i}, outage ends at {last}'}
+    return None
+
+
+def only_mag_dropout(inp):
+    return all(d[0] == 'mag' for d in inp['drops'])
+
+
+def o_config(inp):
+    """a per-sample update with a null sample on a configured filter object: every public attribute other than the declared
+    carried state is the same before and after (and after a second call)"""
+    from vlib.core import call_outcome
+    name = inp['filter']
+    cls, uses_mag, kw, kind, frame = VARIANTS[name]
+    kw = {k: (np.array(v, float) if isinstance(v, (list, np.ndarray)) else v) for k, v in kw.items()}
+    f = getattr(_F(), cls)(**kw)
+    q = np.array(inp['q'], float); g = np.array(inp['gyr'], float)
+    a = np.zeros(3) if 'acc' in inp['null'] else np.array(inp['acc'], float)
+    m = np.zeros(3) if 'mag' in inp['null'] else np.array(inp['mag'], float)
+    meth = {'Madgwick': ('updateMARG', 'updateIMU'), 'Mahony': ('updateMARG', 'updateIMU'), 'AQUA': ('updateMARG', 'updateIMU'),
+            'Fourati': ('update', None), 'ROLEQ': ('update', None), 'EKF': ('update', 'update'), 'UKF': (None, 'update')}[cls]
+    c0 = _config(f)
+    for rep in range(2):
+        if uses_mag:
+            r = call_outcome(getattr(f, meth[0]), q.copy(), g.copy(), a.copy(), m.copy())
+        else:
+            r = call_outcome(getattr(f, meth[1]), q.copy(), g.copy(), a.copy())
+        if r[0] == 'raise' and r[1] != 'ValueError':
+            return {'tag': f'{name}/update-raises-{r[1]}', 'observed': list(r[1:])}
+        diff = _cfg_diff(c0, _config(f))
+        if diff:
+            return {'tag': f'{name}/dropout-changes-configuration', 'observed': {k: b for k, a_, b in diff},
+                    'expected': {k: a_ for k, a_, b in diff}, 'note': f"null {inp['null']}, call {rep + 1}"}
     return None
 
 
@@ -396,12 +564,12 @@ def o_step(inp):
         return {'tag': f'{name}/non-unit', 'observed': qn, 'expected': 1.0}
     if name.endswith('_marg_m0'):
         h = len(v) // 2
-        if cm.maxabs(v[:h], v[h:]) > 1e-14:      # (a zero gyroscope returns q normalised once vs twice: 1 ulp)
+        if cm.maxabs(v[:h], v[h:2 * h]) > 1e-14:      # (a zero gyroscope returns q normalised once vs twice: 1 ulp)
             return {'tag': f'{name}/not-the-IMU-step', 'observed': v[:h], 'expected': v[h:]}
     return None
 
 
-ORACLES = {'dropout': o_dropout, 'step': o_step}
+ORACLES = {'dropout': o_dropout, 'step': o_step, 'config': o_config}
 
 
 def _call(f, inp, what):
@@ -412,44 +580,63 @@ def _call(f, inp, what):
     return r[1]
 
 
+BIASES = [(0.0, 0.0, 0.0), (0.05, -0.03, 0.08), (-0.1, 0.06, 0.02)]
+
+
 def search(ctx, scale):
     rng = ctx.rng
-    # (a) per-sample updates on exact zeros, incl. integer / list inputs through the implementation table
+    # (a) per-sample updates on exact zeros through the implementation table
     tnames = [t.name[len('C13_'):] for t in targets()]
-    for i in range(6 * scale):
+    for i in range(4 * scale):
         for nm in tnames:
             tt = ctx.targets.get('C13_' + nm)
             names = tt.inputs if tt is not None else Q + G + AC + M + BB + DT + H + N0 + W0
             inp = {'target': nm, 'case': _case(rng, names, i + 50)}
             ctx.check('step', inp, _call(o_step, inp, nm), nontrivial_key=(nm, i))
-    # (b) histories
-    fnames = list(FILTERS)
+    # (b) configuration snapshots around a null-sample update, every configured variant with a per-sample entry point
+    for vi, vn in enumerate(VARIANTS):
+        cls, uses_mag = VARIANTS[vn][0], VARIANTS[vn][1]
+        if cls in ('FKF', 'Complementary'):
+            continue
+        for null in (['acc'], ['mag'], ['acc', 'mag']) if uses_mag else (['acc'],):
+            for r in range(scale):
+                inp = {'filter': vn, 'null': null, 'q': cm.rand_unit_quat(rng).tolist(), 'gyr': (rng.standard_normal(3)).tolist(),
+                       'acc': (rng.standard_normal(3) * 9.8).tolist(), 'mag': (rng.standard_normal(3) * 40).tolist()}
+                ctx.check('config', inp, _call(o_config, inp, vn), nontrivial_key=(vn, tuple(null), r))
+    # (c) histories: every variant x sensor combination x a rotating choice of position / length / bias / history
     pats = []
     for N in (160, 240):
         for start in (1, 2, N // 2, N - 2, N - 1):
             pats.append((N, start, 1))
-        pats += [(N, N // 3, 5), (N, N // 4, 25), (N, 1, 10), (N, N - 6, 6)]
+        pats += [(N, N // 3, 5), (N, N // 4, 25), (N, 1, 10), (N, N - 6, 6), (N, N // 2, 12)]
     combos = [('acc',), ('mag',), ('acc', 'mag'), ('gyr',), ('acc', 'gyr'), ('acc', 'mag', 'gyr')]
     k = 0
-    for fi, fn in enumerate(fnames):
-        uses_mag = FILTERS[fn][1]
+    for fi, fn in enumerate(VARIANTS):
+        uses_mag = VARIANTS[fn][1]
         for ci, combo in enumerate(combos):
             if 'mag' in combo and not uses_mag:
                 continue
-            chosen = [pats[(fi * 7 + ci * 3 + j * 5) % len(pats)] for j in range(2 * scale if scale > 1 else 2)]
-            for (N, start, length) in chosen:
+            reps = 1 if scale == 1 else 4
+            for j in range(reps):
+                N, start, length = pats[(fi * 7 + ci * 3 + j * 5 + k) % len(pats)]
                 drops = [[s_, int(start), int(length)] for s_ in combo]
                 if k % 5 == 4:        # a second, overlapping / repeated dropout
                     drops.append([combo[0], int(max(1, start - 3)), 2])
-                form = ('f64', 'f64', 'list')[k % 3]     # float32 records are rejected by the library's input validation (TypeError)
-                inp = {'filter': fn, 'seed': int(1 + (k % 3)), 'N': int(N), 'amp': [0.3, 0.8, 1.5][k % 3], 'drops': drops, 'form': form}
+                inp = {'filter': fn, 'seed': int(1 + (k % 3)), 'N': int(N), 'amp': [0.3, 0.8, 1.5][(k // 2) % 3], 'drops': drops,
+                       'bias': list(BIASES[k % 3]), 'form': ('f64', 'f64', 'list')[k % 3]}
                 k += 1
                 ctx.check('dropout', inp, _call(o_dropout, inp, fn), nontrivial_key=(fn, combo, N, start, length, inp['seed']))
-    # short records (N in 2..7) with a dropout at the last / second row
-    for fn in fnames:
-        for N in (2, 3, 4, 5, 7):
-            sens = 'acc'
-            inp = {'filter': fn, 'seed': 2, 'N': N, 'amp': 0.5, 'drops': [[sens, N - 1, 1]], 'form': 'f64'}
+        # every variant also sees one mid-record single-sample and one 12-sample accelerometer outage with a biased gyro
+        for (start, length) in ((80, 1), (60, 12)):
+            inp = {'filter': fn, 'seed': 2, 'N': 160, 'amp': 0.8, 'drops': [['acc', start, length]], 'bias': list(BIASES[1]), 'form': 'f64'}
+            ctx.check('dropout', inp, _call(o_dropout, inp, fn), nontrivial_key=(fn, 'fixed', start, length))
+        if uses_mag:
+            inp = {'filter': fn, 'seed': 3, 'N': 160, 'amp': 0.8, 'drops': [['mag', 70, 3]], 'bias': list(BIASES[1]), 'form': 'f64'}
+            ctx.check('dropout', inp, _call(o_dropout, inp, fn), nontrivial_key=(fn, 'fixed-mag'))
+    # short records (N in 2..7) with a dropout at the last row
+    for fn in VARIANTS:
+        for N in ((2, 3, 4, 5, 7) if scale > 1 else (2, 4)):
+            inp = {'filter': fn, 'seed': 2, 'N': N, 'amp': 0.5, 'drops': [['acc', N - 1, 1]], 'form': 'f64'}
             ctx.check('dropout', inp, _call(o_dropout, inp, fn), nontrivial_key=(fn, 'short', N))
     ctx.samples.append({'kind': 'search', 'oracle': 'dropout',
-                        'input': {'filter': 'Mahony/MARG', 'seed': 1, 'N': 160, 'amp': 0.3, 'drops': [['acc', 40, 5]], 'form': 'f64'}})
+                        'input': {'filter': 'Mahony/MARG', 'seed': 1, 'N': 160, 'amp': 0.3, 'drops': [['acc', 40, 5]], 'bias': [0.05, -0.03, 0.08], 'form': 'f64'}})
